@@ -87,8 +87,14 @@ var forcedBudget int
 // the leaves: the context is then cancelled only inside callbacks of the OTHER nodes (what a
 // batch does when cancelled from inside is C11's subject), and their item executions always
 // succeed; the rule "no further node of the flow is started" covers them as successors.
+// forcedCause: the context of the scenarios built while it is set is a child of a standard
+// context.WithCancelCause context that is cancelled WITH A CUSTOM CAUSE: context.Cause(ctx) then
+// differs from ctx.Err(), and it is ctx.Err() the run's error has to match.
+var forcedCause bool
+
 func cancelScenarioRot(name string, d *shapeDesc, kinds []int, deadline, before, asNode bool, rot int) Scenario {
 	budget := forcedBudget
+	withCause := forcedCause
 	var h *H
 	var root *spec
 	var menu func(h *H, c call) []answer
@@ -110,6 +116,7 @@ func cancelScenarioRot(name string, d *shapeDesc, kinds []int, deadline, before,
 		h.menu = menu
 		h.topDown = rotationOf(name)%2 == 1 // half of the scenarios wire nested flows top-down
 		cs = &cancelState{at: -1}
+		var stdCancel context.CancelCauseFunc
 		if deadline {
 			c, _ := core.WithDeadline(context.Background(), core.Now().Add(24*time.Hour))
 			cs.ctx, cs.err = c, context.DeadlineExceeded
@@ -117,11 +124,18 @@ func cancelScenarioRot(name string, d *shapeDesc, kinds []int, deadline, before,
 				core.Problem("harness: deadline context reports no deadline")
 			}
 		} else {
-			c, _ := core.WithCancel(context.Background())
+			var parent context.Context = context.Background()
+			if withCause {
+				parent, stdCancel = context.WithCancelCause(parent)
+			}
+			c, _ := core.WithCancel(parent)
 			cs.ctx, cs.err = c, context.Canceled
 		}
 		h.ctx = cs.ctx
 		if before {
+			if stdCancel != nil {
+				stdCancel(errCustomCause)
+			}
 			cs.ctx.CancelInline(cs.err)
 			cs.at = -2
 		}
@@ -151,6 +165,9 @@ func cancelScenarioRot(name string, d *shapeDesc, kinds []int, deadline, before,
 			if cs.at == -1 && !isBatchKind(c.node.kind) && core.Choose(2) == 1 {
 				cs.at, cs.node, cs.visit = len(h.calls)-1, c.node, c.visit
 				core.Logf("cancel inside %s", c)
+				if stdCancel != nil {
+					stdCancel(errCustomCause)
+				}
 				cs.ctx.CancelInline(cs.err)
 			}
 		}
@@ -260,6 +277,26 @@ func genC05(tier string) []Scenario {
 			}
 		}
 	}
+	// one flow object run twice, the first run possibly failing under a context that stays alive
+	for _, nested := range []bool{false, true} {
+		out = append(out, failThenCancelScenario(nested))
+	}
+	// contexts cancelled WITH A CUSTOM CAUSE: the run's error still matches ctx.Err()
+	forcedCause = true
+	for kind := 0; kind < numKinds; kind++ {
+		for _, before := range []bool{false, true} {
+			sc := cancelNodeScenario(kind, 2, false, before)
+			sc.Name += " with-cause"
+			out = append(out, sc)
+		}
+	}
+	for _, base := range []int{1, 2, 3, 4} {
+		d := &shapeDesc{base: base, slot: -1}
+		for _, before := range []bool{false, true} {
+			out = append(out, cancelScenarioRot(fmt.Sprintf("cancel-with-cause before=%v shape=%s", before, d), d, c05Kinds, false, before, base%2 == 0, base))
+		}
+	}
+	forcedCause = false
 	// one flow object re-wired between three runs, the last one cancelled
 	for _, deadline := range []bool{false, true} {
 		out = append(out, rewireCancelScenario(deadline))
@@ -403,6 +440,107 @@ func rewireCancelScenario(deadline bool) Scenario {
 		}
 	}
 	return Scenario{Name: fmt.Sprintf("rewire-then-cancel three runs, a nested flow among the targets, deadline=%v", deadline), Body: body, Check: stdCheck(func() string {
+		if h == nil {
+			return "?"
+		}
+		return strings.Join(h.hist, " | ")
+	})}
+}
+
+// failThenCancelScenario: ONE flow object (three nodes, the middle one optionally a nested flow of
+// two) run twice through Run: the first run under a context A that stays alive, ended by a node's
+// error or not; the second under A again or under a new context B, which is cancelled before the
+// run or inside any callback.  The second run watches ITS context, whatever the first one left.
+func failThenCancelScenario(nested bool) Scenario {
+	var h *H
+	var cs *cancelState
+	body := func() {
+		n0, n1, n2 := &spec{id: "n0", kind: kLog, n: 1}, &spec{id: "n1", kind: kLog, n: 1}, &spec{id: "n2", kind: kLog, n: 1}
+		mid := n1
+		if nested {
+			m0, m1 := &spec{id: "m0", kind: kLog, n: 1}, &spec{id: "m1", kind: kLog, n: 1}
+			mid = &spec{id: "inner", flow: &flowSpec{start: m0, edges: map[*spec]map[flyt.Action]*spec{m0: {"a": m1}}}}
+		}
+		root := &spec{id: "flow", flow: &flowSpec{start: n0, edges: map[*spec]map[flyt.Action]*spec{n0: {"a": mid}, mid: {"a": n2}}}}
+		h = newH(root)
+		failed := false
+		h.menu = func(hh *H, c call) []answer {
+			switch c.ph {
+			case pPost:
+				return []answer{{action: "a"}}
+			case pExec:
+				if hh.runNo == 0 && !failed {
+					return []answer{{val: nil}, {err: errExec[0]}}
+				}
+			}
+			return []answer{{val: nil}}
+		}
+		h.onCall = func(hh *H, c call) {}
+		node := h.build(root)
+		ctxA, _ := core.WithCancel(context.Background())
+		h.ctx = ctxA
+		a, err := flyt.Run(ctxA, node, h.store)
+		for _, an := range h.answers {
+			if an.err != nil {
+				failed = true
+			}
+		}
+		core.Logf("run 1 returned (%q, %v)", a, err)
+		h.finish(a, err)
+		h.hist = append(h.hist, h.traceString())
+		// second run
+		h.closeRef()
+		h.runNo++
+		h.answers, h.calls = nil, nil
+		h.visits = map[*spec]int{}
+		h.store = flyt.NewSharedStore()
+		cs = &cancelState{at: -1, err: context.Canceled}
+		cs.ctx = ctxA
+		if core.Choose(2) == 1 {
+			cs.ctx, _ = core.WithCancel(context.Background())
+		}
+		h.ctx = cs.ctx
+		if core.Choose(2) == 1 {
+			cs.ctx.CancelInline(cs.err)
+			cs.at = -2
+		}
+		h.preCall = func(hh *H, c call) {
+			if cs.at == -2 {
+				core.Problem("run 2: callback %s invoked although the context was done before the run", c)
+			} else if cs.at >= 0 && (c.node != cs.node || c.visit != cs.visit || c.ph != pPost) {
+				core.Problem("run 2: a further node was started after the context was cancelled (during callback #%d %s#%d): %s", cs.at, cs.node.id, cs.visit, c)
+			}
+		}
+		h.onCall = func(hh *H, c call) {
+			if cs.at == -1 && core.Choose(2) == 1 {
+				cs.at, cs.node, cs.visit = len(hh.calls)-1, c.node, c.visit
+				core.Logf("cancel inside %s", c)
+				cs.ctx.CancelInline(cs.err)
+			}
+		}
+		a, err = flyt.Run(h.ctx, node, h.store)
+		core.Logf("run 2 returned (%q, %v)", a, err)
+		h.hist = append(h.hist, fmt.Sprintf("%s cancel@%d", h.traceString(), cs.at))
+		_, out, done := simulate(h.root, h.store, h.answers)
+		matchesCtx := err != nil && errors.Is(err, cs.err)
+		switch {
+		case cs.at == -1:
+			h.finish(a, err)
+		case cs.at == -2:
+			if !matchesCtx {
+				core.Problem("run 2 on a done context returned %v, want an error matching %v", err, cs.err)
+			}
+		case !done:
+			if !matchesCtx {
+				core.Problem("run 2 was cut short by the cancellation (after %s) but returned (%q, %v), want an error matching %v", h.traceString(), a, err, cs.err)
+			}
+		default:
+			if err != nil && !matchesCtx && out.err == nil {
+				core.Problem("run 2 completed its whole path but returned %v", err)
+			}
+		}
+	}
+	return Scenario{Name: fmt.Sprintf("fail-then-cancel two runs of one flow through Run, nested=%v", nested), Body: body, Check: stdCheck(func() string {
 		if h == nil {
 			return "?"
 		}
